@@ -5,6 +5,7 @@ import (
 	"bytes"
 	"fmt"
 	"log/slog"
+	"os"
 	"testing"
 	"time"
 
@@ -27,6 +28,11 @@ type Case struct {
 	// in the middle of a segment must not change how the stream is cut).
 	PauseAt int `json:"pause_at"`
 	PauseMs int `json:"pause_ms"`
+	// StallMs > 0: the consumer does not take message StallAt for that long (a logger blocked on a slow disk).
+	// Every recognised segment must still arrive - the handler may not drop what it cannot deliver at once.
+	StallAt int `json:"stall_at_message"`
+	StallMs int `json:"stall_ms"`
+	OutCap  int `json:"out_cap"`
 }
 
 // Compare checks delivered messages against an expected list.
@@ -76,6 +82,16 @@ func check(c Case, o *stats.Obs) error {
 	want := gen.Expected(c.Stream)
 	CrossCheck(want, input)
 	opt := drive.Options{InCap: c.InCap, OutCap: 1}
+	if c.StallMs > 0 {
+		opt.OutCap = c.OutCap
+		opt.Timeout = 60 * time.Second
+		opt.ConsumerPause = func(i int) {
+			if i == c.StallAt {
+				time.Sleep(time.Duration(c.StallMs) * time.Millisecond)
+			}
+		}
+		o.Class("consumer-stall")
+	}
 	if c.PauseMs > 0 {
 		opt.ProducerPause = func(i int) {
 			if i == c.PauseAt {
@@ -175,5 +191,22 @@ func genPar(t *rapid.T) Case {
 var propParallel = stats.ParallelProp(R, "parallel", genPar, check, 4)
 
 func TestParallel(t *testing.T) { rapid.Check(t, propParallel) }
+
+// Slow consumer: one message is left waiting for several seconds.
+func genSlow(t *rapid.T) Case {
+	c := Case{Stream: gen.CleanStream(t, 6, 60, true), InCap: rapid.SampledFrom([]int{0, 16}).Draw(t, "inCap")}
+	c.Stream.Segs = append([]gen.Segment{{Kind: "valid", Data: gen.ValidFrame(t, 40)}, {Kind: "valid", Data: gen.ValidFrame(t, 40)}}, c.Stream.Segs...)
+	c.StallMs = 5500
+	if os.Getenv("VERIF_TIER") == "thorough" {
+		c.StallMs = 12000
+	}
+	c.OutCap = rapid.IntRange(0, 1).Draw(t, "outCap")
+	c.StallAt = rapid.IntRange(0, 2).Draw(t, "stallAt")
+	return c
+}
+
+var propSlow = stats.Prop(R, "slow-consumer", genSlow, check)
+
+func TestSlowConsumer(t *testing.T) { rapid.Check(t, propSlow) }
 
 func TestReplay(t *testing.T) { R.Replay(t) }
